@@ -2,7 +2,10 @@
 Mirror of `weasyprint/css/computed_values.py` for the functions named in DESIGN §4 C06:
 `length`, `font_size`, `font_weight`, `border_width`, `break_before_after`, `display`,
 `compute_float`, `line_height`, `pixel_length`, `word_spacing`, `gap`, `tab_size`,
-`length_pixels_only`, `bleed`, `vertical_align` (keyword / super / sub / length branches).
+`length_pixels_only`, `bleed`, `vertical_align` (keyword / super / sub / length branches), the
+tuple-valued properties, content lists, `anchor`, `lang`, and the grid track sizes (`grid_template`,
+`grid_auto`, `_track_size`, `_compute_track_breadth`).  Not modelled: `background_image` (gradient
+objects), `image_orientation` (`round(angle / pi)`), `link` (URL resolution: C18 / C20).
 Tables come from `Gen/Units.lean` (regenerated from the source on every run).
 
 The real style object is lazy (`style['font_size']` is computed on access), so the accessors of
@@ -396,21 +399,23 @@ def borderImageSlice (values : Val) : Except CErr Val := do
   let (computed, fill) ← sliceItems l
   pure (mkTuple (padFour computed ++ [fill]))
 
-def widthItems : List Val → Except CErr (List Val)
+def widthItems (env : Env) : List Val → Except CErr (List Val)
   | [] => .ok []
   | v :: rest => do
     let h ← if v.isKw "auto" then pure v else do
       let (q, unit) ← numberUnit "border_image_width" v
-      -- `number if unit is None else value`: the length is *not* computed (known finding
-      -- border-image-width-not-computed)
-      pure (match unit with | none => Val.num q | some _ => v)
-    let t ← widthItems rest
+      -- `number if unit is None else length(style, name, value)` (the length is computed since
+      -- commit 26138d1; before, `2em` stayed `2em`)
+      match unit with
+      | none => pure (Val.num q)
+      | some _ => length env v
+    let t ← widthItems env rest
     pure (h :: t)
 
 /-- `border_image_width` (`border-image-width`, `mask-border-width`). -/
-def borderImageWidth (values : Val) : Except CErr Val := do
+def borderImageWidth (env : Env) (values : Val) : Except CErr Val := do
   let l ← elems "border_image_width" values
-  pure (mkTuple (padFour (← widthItems l)))
+  pure (mkTuple (padFour (← widthItems env l)))
 
 def outsetItems (env : Env) : List Val → Except CErr (List Val)
   | [] => .ok []
@@ -568,6 +573,112 @@ def lang (env : Env) (values : Val) : Except CErr Val :=
       else pure .null
     | _ => .error (.valueError "lang: name, key = values")
 
+/-! ### grid track sizes -/
+
+/-- `_compute_track_breadth(style, name, value)`; `none` = the function falls off its end (`None`).
+Every value it returns is truthy (a non-empty string or a `Dimension`), so `if track_breadth:` in
+the callers is "returned something". -/
+def computeTrackBreadth (env : Env) (value : Val) : Except CErr (Option Val) :=
+  match value with
+  | .kw s =>
+    if s == "auto" || s == "min-content" || s == "max-content" then .ok (some value) else .ok none
+  | .dim _ unit => if unit == "fr" then .ok (some value) else (length env value).map some
+  | _ => .ok none
+
+/-- `value[i]` on what `elems` yields. -/
+def itemAt (site : String) (l : List Val) (i : Nat) : Except CErr Val :=
+  match l[i]? with
+  | some v => .ok v
+  | none => .error (.indexError (site ++ ": value[" ++ toString i ++ "]"))
+
+def optVal : Option Val → Val
+  | some v => v
+  | none => .null
+
+/-- The loop of `_track_size(style, name, values)` from index `i` on; `fuel` bounds the depth of the
+recursion (one unit per item and per `repeat()` level: the number of nodes of the value, which the
+callers give, always suffices). -/
+def trackSizeFrom (env : Env) : Nat → List Val → Nat → Except CErr (List Val)
+  | 0, _, _ => .error (.unsupported "_track_size: out of fuel")
+  | _ + 1, [], _ => .ok []
+  | fuel + 1, value :: rest, i => do
+    let h : List Val ←
+      if i % 2 == 0 then pure [value]          -- line names
+      else do
+        match ← computeTrackBreadth env value with
+        | some tb => pure [tb]
+        | none => do
+          let head ← headName "_track_size" value
+          let items ← elems "_track_size" value
+          if head == some "minmax()" then do
+            let a ← computeTrackBreadth env (← itemAt "_track_size" items 1)
+            let b ← computeTrackBreadth env (← itemAt "_track_size" items 2)
+            pure [mkTuple [.kw "minmax()", optVal a, optVal b]]
+          else if head == some "fit-content()" then do
+            let l ← length env (← itemAt "_track_size" items 1)
+            pure [mkTuple [.kw "fit-content()", l]]
+          else if head == some "repeat()" then do
+            let n ← itemAt "_track_size" items 1
+            let inner ← elems "_track_size" (← itemAt "_track_size" items 2)
+            let r ← trackSizeFrom env fuel inner 0
+            pure [mkTuple [.kw "repeat()", n, mkTuple r]]
+          else pure []
+    let t ← trackSizeFrom env fuel rest (i + 1)
+    pure (h ++ t)
+
+mutual
+/-- Number of things iterating a value can yield, nested (fuel for the nested loops). -/
+def valSize : Val → Nat
+  | .tup l => 1 + valSizeList l
+  | .strs l => 1 + l.length
+  | .kw s => 1 + s.length
+  | _ => 3
+def valSizeList : List Val → Nat
+  | [] => 0
+  | v :: rest => valSize v + valSizeList rest
+end
+
+/-- `grid_template(style, name, values)` (`grid-template-columns`, `grid-template-rows`). -/
+def gridTemplate (env : Env) (values : Val) : Except CErr Val := do
+  if values.isKw "none" then pure values
+  else do
+    let head ← headName "grid_template" values
+    if head == some "subgrid" then pure values
+    else do
+      let l ← elems "_track_size" values
+      pure (mkTuple (← trackSizeFrom env (valSize values + 1) l 0))
+
+/-- The loop of `grid_auto(style, name, values)`. -/
+def gridAutoItems (env : Env) : Nat → List Val → Except CErr (List Val)
+  | 0, _ => .error (.unsupported "grid_auto: out of fuel")
+  | _ + 1, [] => .ok []
+  | fuel + 1, value :: rest => do
+    let h : List Val ←
+      match ← computeTrackBreadth env value with
+      | some tb => pure [tb]
+      | none => do
+        let head ← headName "grid_auto" value
+        let items ← elems "grid_auto" value
+        -- grid_auto(style, name, [value[k]])[0]
+        let sub (k : Nat) : Except CErr Val := do
+          let r ← gridAutoItems env fuel [← itemAt "grid_auto" items k]
+          itemAt "grid_auto" r 0
+        if head == some "minmax()" then do
+          let a ← sub 1
+          let b ← sub 2
+          pure [mkTuple [.kw "minmax()", a, b]]
+        else if head == some "fit-content()" then do
+          let a ← sub 1
+          pure [mkTuple [.kw "fit-content()", a]]
+        else pure []
+    let t ← gridAutoItems env fuel rest
+    pure (h ++ t)
+
+/-- `grid_auto(style, name, values)` (`grid-auto-columns`, `grid-auto-rows`). -/
+def gridAuto (env : Env) (values : Val) : Except CErr Val := do
+  let l ← elems "grid_auto" values
+  pure (mkTuple (← gridAutoItems env (valSize values + 1) l))
+
 /-- Dispatch on the `__name__` of the function registered in `COMPUTER_FUNCTIONS` (generated). -/
 def applyComputer (fname : String) (env : Env) (key : String) (value : Val) : Except CErr Val :=
   match fname with
@@ -592,7 +703,7 @@ def applyComputer (fname : String) (env : Env) (key : String) (value : Val) : Ex
   | "compute_position" => computePosition env value
   | "background_size" => backgroundSize env value
   | "border_image_slice" => borderImageSlice value
-  | "border_image_width" => borderImageWidth value
+  | "border_image_width" => borderImageWidth env value
   | "border_image_outset" => borderImageOutset env value
   | "border_image_repeat" => borderImageRepeat value
   | "transform" => transform env value
@@ -601,6 +712,8 @@ def applyComputer (fname : String) (env : Env) (key : String) (value : Val) : Ex
   | "string_set" => stringSet env value
   | "anchor" => anchor env value
   | "lang" => lang env value
+  | "grid_template" => gridTemplate env value
+  | "grid_auto" => gridAuto env value
   | other => .error (.unsupported ("computer function " ++ other))
 
 /-- `if key in COMPUTER_FUNCTIONS: value = COMPUTER_FUNCTIONS[key](self, key, value)`. -/
